@@ -3399,6 +3399,10 @@ class ServiceRequestingTransport(Transport):
             raise SSHException("No existing session")
         # Also make sure we've actually been told we are allowed to auth.
         if self._service_userauth_accepted:
+            # NOTE: a server may volunteer SERVICE_ACCEPT before we ever
+            # asked, in which case no auth handler exists yet.
+            if self.auth_handler is None:
+                self.auth_handler = self.get_auth_handler()
             return
         # Or request to do so, otherwise.
         m = Message()
